@@ -578,7 +578,7 @@ def judge_exception(R, kind, detail, exc, s, wh, in_module):
         if name not in R.ns._functions and re.search(re.escape(name) + r'(_[a-zA-Z0-9]*)?(:[a-zA-Z]*)?\(', s):
             return 'violation', 'C19-v1-unknown-function-keyerror'
     if _EMPTY_CALL.search(s):
-        return 'violation', 'C19-v1-empty-call-reparse'
+        return 'violation', ('C19-v1-empty-call-omitted-indices' if kind == 'AttributeError' and '_ArrayOmittedIndices' in msg else 'C19-v1-empty-call-reparse')
     if kind == 'KeyError' and wh[1] == '_replace_lengths' and (_NUMERAL_ARG.search(s) or _NUMERAL_GEN.search(s)):
         return 'violation', 'C19-v1-numeral-on-inferred-axis'
     if kind == 'IndexError' and wh[1] == '_apply_indices' and _NUMERAL_GEN.search(s):
@@ -625,6 +625,10 @@ def base_v1(R, rng, tier, res, pend, case0, only, H):
     res.maximum('max-string-length', len(s))
     try:
         ref, out, dom = reference(tree, info, R)
+    except Unclassified:
+        res.count('generator-discards')
+        res.count('v1/generator-discards-unmodelled')
+        return
     except Exception as e:
         res.count('harness-selfcheck-failures')
         res.note('v1 reference failed for {!r}: {}: {}'.format(s, type(e).__name__, str(e)[:300]))
@@ -653,6 +657,14 @@ def base_v1(R, rng, tier, res, pend, case0, only, H):
         if m is None:
             continue
         check_mutation(R, m[0], m[1], rng, res, pend, dict(case0, base=s), H)
+    # --- an index that is already summed inside the expression is used once more outside: documented as invalid
+    try:
+        L0, info0 = Lengths(), {}
+        summed = analyse(tree, R, L0, info0)[2]
+    except Exception:
+        summed = ()
+    for t2 in H['summed_reuse_trees'](tree, summed, G, R, rng):
+        check_mutation(R, t2, 'summed index reused outside', rng, res, pend, dict(case0, base=s), H)
     # --- single-character corruptions: lexical classification, exception-type clause
     for c, ckind in H['corrupt'](s, rng, H['NCORR'][tier] // 2, R):
         check_string(R, c, ckind, out, rng, res, dict(case0, string=c, kind='corruption', edit=ckind, base=s), H)
@@ -775,6 +787,12 @@ def repro_empty_call():
     return fails, "v1: ns.eval_('f()b)') " + what
 
 
+def repro_empty_call_omitted():
+    ns, m = _ns()
+    fails, what = _outcome(lambda: 'f()-b)^2' @ ns, (m.ExpressionSyntaxError,))
+    return fails, "v1: 'f()-b)^2' @ ns " + what
+
+
 def repro_unknown_function():
     ns, m = _ns()
     fails, what = _outcome(lambda: ns.eval_('foo(b)'), (m.ExpressionSyntaxError,))
@@ -802,5 +820,6 @@ def repro_sum_summed():
 
 
 REPRODUCERS = {'C19-v1-matmul-trailing-garbage': repro_trailing, 'C19-v1-empty-call-reparse': repro_empty_call,
+               'C19-v1-empty-call-omitted-indices': repro_empty_call_omitted,
                'C19-v1-unknown-function-keyerror': repro_unknown_function, 'C19-v1-numeral-on-inferred-axis': repro_numeral_inferred,
                'C19-v1-highlight-typeerror': repro_highlight, 'C19-v1-sum-forgets-summed-indices': repro_sum_summed}
